@@ -15,6 +15,13 @@
     meaning theorems of C05.  Dynamic reordering is disabled ([AInv] contains
     [last_len = None]), as in [C05_add_expr_sem]; the last theorem is the
     total statement with reordering possibly enabled.
+    Node limit ([bdd.max_nodes] of the wrapped manager): the theorems that
+    conclude that [add_expr] SUCCEEDS ([C05a_add_expr], and the round trips
+    in [C05a_to_expr], [C05a_to_expr_text]) assume an unbounded table,
+    [max_nodes (mgr a) = None]; the total statements ([C05a_add_expr_any],
+    [C05a_add_expr_any_dynamic], the syntax error, the dead handle) hold for
+    any limit: the error may then be [ERuntime] (the [RuntimeError] of a full
+    table), and then no handle is created.
     Only statements closed by [exact]; proofs live in [Proofs/AutorefExpr.v]
     (and [Proofs/AddExprTotal.v], see [Properties/C17_add_expr.v]). *)
 From stdpp Require Import strings.
@@ -72,7 +79,7 @@ Theorem C05a_add_expr w m sp ts (t : Parser.ast) :
   let a := aworld_get w m in
   let w' := fst (astep_expr w m sp) in
   let a' := aworld_get w' m in
-  AInv a →
+  AInv a → max_nodes (mgr a) = None →
   lex sp = Some ts → parse code_prec ts = Some t → ok_ast (mgr a) t →
   ∃ u, snd (astep_expr w m sp) = Ok (VN (next_hid a)) ∧
     handles a !! next_hid a = None ∧
@@ -99,7 +106,7 @@ Print Assumptions C05a_counts_after.
     either outcome: the invariant and every live handle are kept; a success
     creates exactly the fresh handle [next_hid a]; on failure NO handle is
     created (table and next identifier unchanged) and the error is not the
-    reordering signal. *)
+    reordering signal (it may be [ERuntime], a full table). *)
 Theorem C05a_add_expr_any w m sp :
   let a := aworld_get w m in
   let w' := fst (astep_expr w m sp) in
@@ -144,7 +151,7 @@ Print Assumptions C05a_add_expr_syntax_error.
 Theorem C05a_to_expr w m h u :
   let a := aworld_get w m in
   let w' := fst (astep_to_expr w m h) in
-  AInv a → handles a !! h = Some u →
+  AInv a → max_nodes (mgr a) = None → handles a !! h = Some u →
   ∃ t : Parser.ast,
     snd (astep_to_expr w m h) = Ok (VS (expr_text t)) ∧
     aworld_get w' m = a ∧
@@ -170,7 +177,7 @@ Print Assumptions C05a_to_expr.
 Theorem C05a_to_expr_text w m h u :
   let a := aworld_get w m in
   let w' := fst (astep_to_expr w m h) in
-  AInv a → handles a !! h = Some u →
+  AInv a → max_nodes (mgr a) = None → handles a !! h = Some u →
   ∃ txt, snd (astep_to_expr w m h) = Ok (VS txt) ∧ aworld_get w' m = a ∧
     let a2 := aworld_get (fst (astep_expr w' m (split_formula txt))) m in
     snd (astep_expr w' m (split_formula txt)) = Ok (VN (next_hid a)) ∧
@@ -197,7 +204,7 @@ Print Assumptions C05a_to_expr_dead.
     every live handle (node and function) are kept, neither the signal nor
     the oracle error reaches the caller, the reordering mode "off" is kept, a
     failure creates no handle.  (The MEANING of the result with reordering
-    enabled is not proved here.) *)
+    enabled is [C05d_add_expr_dynamic], [Properties/C05_autoref_dyn.v].) *)
 Theorem C05a_add_expr_any_dynamic w m sp :
   let a := aworld_get w m in
   let w' := fst (astep_expr w m sp) in
@@ -257,8 +264,23 @@ Example C05a_example :
 Proof. by vm_compute. Qed.
 
 (** the hypotheses of [C05a_add_expr] hold for the first call of the example:
-    the fresh manager satisfies [AInv] ([C08_new]) *)
-Example C05a_example_AInv : AInv (aworld_get c05a_w0 0).
-Proof. exact (proj1 (astep_AInv aworld_empty 0 (ANew [(0, 0); (1, 1); (2, 2)])
-                       ltac:(by vm_compute) ltac:(by intros [=]))). Qed.
+    the fresh manager satisfies [AInv] ([C08_new]) and is unbounded *)
+Example C05a_example_AInv :
+  AInv (aworld_get c05a_w0 0) ∧ max_nodes (mgr (aworld_get c05a_w0 0)) = None.
+Proof. exact (conj (proj1 (astep_AInv aworld_empty 0 (ANew [(0, 0); (1, 1); (2, 2)])
+                       ltac:(by vm_compute) ltac:(by intros [=]))) eq_refl). Qed.
 Print Assumptions C05a_example_AInv.
+
+(** the same manager with a node limit that is already reached
+    ([max_nodes = 2]: the only node is the terminal): [add_expr] of an
+    accepted formula raises [RuntimeError]; no handle is created
+    ([C05a_add_expr_any]); a formula that needs no new node is still added *)
+Example C05a_example_full_table :
+  let a0 := aworld_get c05a_w0 0 in
+  let w1 : aworld := <[0 := a0 <| mgr := (mgr a0) <| max_nodes := Some 2%positive |> |>]> c05a_w0 in
+  let a1 := aworld_get w1 0 in
+  let s1 := astep_expr w1 0 c05a_e1 in
+  snd s1 = Err ERuntime ∧
+  adigest (aworld_get (fst s1) 0) = adigest a1 ∧
+  snd (astep_expr w1 0 ["TRUE"]) = Ok (VN 0).
+Proof. by vm_compute. Qed.
